@@ -49,6 +49,7 @@ type FnConfig struct {
 	TrackInit bool
 	PB        bool
 	NoGlobal  bool
+	ReadOnly  bool
 	AssumeWF  []string // extra entry assumptions (contract-level predicates by name) — unused yet
 }
 
@@ -96,7 +97,7 @@ func (e *Engine) buildVC(f *ssa.Function, cfg *FnConfig, dead map[string]bool) (
 	}
 	c.entry = c.st.clone()
 	if cfg != nil {
-		g := &ghostCfg{trackInit: cfg.TrackInit, noGlobal: cfg.NoGlobal}
+		g := &ghostCfg{trackInit: cfg.TrackInit, noGlobal: cfg.NoGlobal, readOnly: cfg.ReadOnly}
 		if cfg.InputData {
 			for i, p := range f.Params {
 				if isByteSlice(p.Type()) {
@@ -114,6 +115,11 @@ func (e *Engine) buildVC(f *ssa.Function, cfg *FnConfig, dead map[string]bool) (
 			}
 		}
 		c.gcfg = g
+		if g.pb != nil {
+			c.pbSet(0, "0")
+			c.pbSet(1, "0")
+			c.pbSet(2, "0")
+		}
 	}
 	// requires are assumed at entry
 	if c.ct != nil {
